@@ -128,6 +128,13 @@ def work(shard, res, tier, seed):
         import shutil
         import tempfile
         from vmon import pipeline
+        # valid mapped reactions with a ring-closure bond written across a dot / with isotope labels
+        cases.append({"tag": "dotclosure", "cfg": {"batch_size": None, "threshold": 0, "n_jobs": 1}, "ids": [],
+                      "inputs": ["[CH3:1][CH2:2]9.[OH:3]9.[CH3:4][C:5](=[O:6])[Cl:7]>>[CH3:1][CH2:2][O:3][C:5]([CH3:4])=[O:6]",
+                                 "[CH3:1][C:2](=[O:3])[O:4]1.[CH2:5]1[CH3:6]>>[CH3:1][C:2](=[O:3])[OH:4]",
+                                 "[CH2:1]%11[CH2:2][CH2:3][CH3:4].[OH:5]%11>>[CH2:1]=[CH:2][CH2:3][CH3:4].[OH2:5]",
+                                 "[13CH3:1][OH:2].[CH3:3][C:4](=[O:5])[Cl:6]>>[13CH3:1][O:2][C:4]([CH3:3])=[O:5]",
+                                 "[CH3:1][C:2]1=[O:3].[O:4]1[CH3:5]>>[CH3:1][C:2](=[O:3])[OH:7]"]})
         outs = []
         for k, c in enumerate(cases):
             outs.append(rowlib.run_case(c, trace=False))
